@@ -46,6 +46,11 @@ def judge_emits(chk, recs, name="emits"):
         r.setdefault("prog", {"vars": [], "cons": [], "keys": []})
         r.setdefault("bits", [])
         r.setdefault("fixed", [])
+        r.setdefault("outs", [])
+        r.setdefault("base", 2)
+        for b in r["bits"]:
+            b.setdefault("isint", False)
+            b.setdefault("neg", False)
     path = chk.dir / f"{name}.ndjson"
     write_ndjson(path, recs)
     res = run_tlc("Trace_Emit", "Trace_Emit", workdir=chk.dir, env={"TRACE_FILE": str(path)}, timeout=3000)
